@@ -46,7 +46,9 @@ def main():
         "checks": checks,
         "not_applicable": [{"property_id": k, "reason": v} for k, v in sorted(NOT_APPLICABLE.items())],
         "notes": "Every check decides the structural clauses named in its level text for all inputs at once; none decides "
-                 "numerical behaviour (see DESIGN.md section 0 and section 7).  Genuine defects found by the rules were repaired in /repo with "
+                 "numerical behaviour (see DESIGN.md section 0 and section 7).  Besides its own rules every check (except C20) also evaluates the "
+                 "value-semantic rule instances of the other properties at the functions its own anchors call (dependency closure, DESIGN.md section 12): "
+                 "a property about polydiv is also broken by a change to is_zero, one about the cubic formula by a change to Complex::powf.  Genuine defects found by the rules were repaired in /repo with "
                  "`fix:` commits and are listed as `fixed:` in known_findings.txt.",
     }
     with open(os.path.join(HERE, "MANIFEST.json"), "w") as f:
